@@ -197,6 +197,7 @@ impl Default for SubFrameCoding {
 
 impl Verify for SubFrameCoding {
     fn verify(&self) -> Result<(), VerifyError> {
+        self.fixed.verify().map_err(|err| err.within("fixed"))?;
         self.qlpc.verify().map_err(|err| err.within("qlpc"))?;
         self.prc.verify().map_err(|err| err.within("prc"))?;
         Ok(())
@@ -250,6 +251,9 @@ impl Verify for Fixed {
             self.max_order,
             ..=(constant::fixed::MAX_LPC_ORDER)
         )?;
+        self.order_sel
+            .verify()
+            .map_err(|err| err.within("order_sel"))?;
         Ok(())
     }
 }
